@@ -556,7 +556,7 @@ fn spell_char(ch: char, rng: &mut Rng) -> String {
 }
 
 const HOSTILE: &[char] = &[
-    'a', 'Z', '0', ' ', '"', '\\', '\n', '\t', '\r', '\u{8}', '\u{c}', '/', '\'', '%', '{', '}', '$', '`', 'é', 'ß', '中', '\u{1F600}', '\u{7f}', '\u{1}', '\u{1f}', '\u{a0}', '\u{2028}', 'n', 'u', 'x', '#',
+    'a', 'Z', '0', ' ', '"', '\\', '\n', '\t', '\r', '\u{8}', '\u{c}', '/', '\'', '%', '{', '}', '$', '`', 'é', 'ß', '中', '\u{1F600}', '\u{10000}', '\u{103FF}', '\u{10400}', '\u{1F3FF}', '\u{10FFFF}', '\u{10FC00}', '\u{FFFF}', '\u{D7FF}', '\u{E000}', '\u{7f}', '\u{1}', '\u{1f}', '\u{a0}', '\u{2028}', 'n', 'u', 'x', '#',
 ];
 
 fn go_println_bytes(s: &str) -> String {
